@@ -338,3 +338,27 @@ func Yield(pos string) {
 	}
 	park(&simpleOp{d: "yield " + pos, n: 1})
 }
+
+// SortedKeys: instrumented `for k, v := range m` over a map iterates in sorted key order (Go randomises map iteration;
+// the explorer must own every source of nondeterminism).
+func SortedKeys[M ~map[K]V, K interface {
+	~int | ~int8 | ~int16 | ~int32 | ~int64 | ~uint | ~uint8 | ~uint16 | ~uint32 | ~uint64 | ~uintptr | ~float32 | ~float64 | ~string
+}, V any](m M) []K {
+	keys := make([]K, 0, len(m))
+	for k := range m {
+		keys = append(keys, k)
+	}
+	sortSlice(keys)
+	return keys
+}
+
+func sortSlice[K interface {
+	~int | ~int8 | ~int16 | ~int32 | ~int64 | ~uint | ~uint8 | ~uint16 | ~uint32 | ~uint64 | ~uintptr | ~float32 | ~float64 | ~string
+}](s []K) {
+	// insertion sort: the maps involved have a handful of entries
+	for i := 1; i < len(s); i++ {
+		for j := i; j > 0 && s[j] < s[j-1]; j-- {
+			s[j], s[j-1] = s[j-1], s[j]
+		}
+	}
+}
